@@ -86,6 +86,16 @@ def _softmax_rows(m):
     return e / e.sum(axis=-1, keepdims=True)
 
 
+def _cfg_task(tasks):
+    """All lengths T of one configuration in one process (jax import and tracing are paid once)."""
+    out = []
+    for t in tasks:
+        out.append(_task(t))
+        if out[-1]["error"]:
+            break
+    return out
+
+
 def _task(task):
     """All observation sequences of length T for one configuration. -> list of case records."""
     cfg_id, cfg, T, seed, ns, n0 = task
@@ -223,10 +233,13 @@ def run(prop_id, tier, seed, replay=None):
                 continue
             tasks.append((ci, c, T, seed, ns, n0))
             n0 += c[0] ** T
-    tasks.sort(key=lambda t: -(t[1][0] ** t[2]))
+    by_cfg = {}
+    for t in tasks:
+        by_cfg.setdefault(t[0], []).append(t)
+    groups = sorted(by_cfg.values(), key=lambda g: -sum(t[1][0] ** t[2] for t in g))
     import concurrent.futures as cf
-    ex = cf.ProcessPoolExecutor(max_workers=min(vlib.NCPU, len(tasks)), mp_context=mp.get_context("spawn"))
-    futs = [ex.submit(_task, t) for t in tasks]
+    ex = cf.ProcessPoolExecutor(max_workers=min(vlib.NCPU, len(groups)), mp_context=mp.get_context("spawn"))
+    futs = [ex.submit(_cfg_task, g) for g in groups]
     # ---- role A ------------------------------------------------------------
     cfgA = os.path.join(wd, "MC_HMM.cfg")
     with open(cfgA, "w") as f:
@@ -244,12 +257,12 @@ def run(prop_id, tier, seed, replay=None):
     errs_seen = {}
     try:
         for fu in cf.as_completed(futs, timeout=1500 if tier == "quick" else 5400):
-            r = fu.result()
-            if r["error"]:
-                raise vlib.MachineryError(r["error"])
-            cases += r["cases"]
-            for k, v in r["errs"].items():
-                errs_seen.setdefault(k, v)
+            for r in fu.result():
+                if r["error"]:
+                    raise vlib.MachineryError(r["error"])
+                cases += r["cases"]
+                for k, v in r["errs"].items():
+                    errs_seen.setdefault(k, v)
     except cf.TimeoutError:
         ex.shutdown(wait=False, cancel_futures=True)
         raise vlib.MachineryError("HMM driver timed out")
